@@ -741,6 +741,10 @@ def execute(desc):
         except Exception:  # pylint: disable=broad-except
           # C08 does not promise picklability: fall back to a deep copy
           stats['skipped']['pickle_unsupported'] = 1
+      # (copy.copy is deliberately NOT a snapshot kind: shallow copies share
+      # the series arrays, and on the unchanged class `a = copy.copy(d);
+      # a.y += 1` already changes what d reports -- see DESIGN.md section 5.2,
+      # C08-p.)
       if new is None:
         new = copy.deepcopy(obj)
       nt = _Tracked(new, None if t.y is None else t.y.copy(),
